@@ -100,6 +100,10 @@ def compare_traces(t1, s1, t2, s2):
         if not same_event(t1[i], t2[i]):
             return f"effect #{i}: {t1[i]} vs {t2[i]}"
     budget = ("steps",)
+    if s1 == "steps" and s2 in ("ticks", "end", "hcf") and len(t1) <= len(t2):
+        # the reference finished; the emitted program spent its whole step budget (several thousand instructions for a
+        # program of a few dozen lines) without getting there: it does not make progress
+        return f"emitted program exhausts the step budget after {len(t1)} effects; the source finishes with {len(t2)} effects ({s2})"
     if len(t1) != len(t2):
         longer_is_1 = len(t1) > len(t2)
         short_status = s2 if longer_is_1 else s1
@@ -113,7 +117,7 @@ def compare_traces(t1, s1, t2, s2):
     return None
 
 
-def run_machine(code, env, max_ticks=3, max_steps=6000, main_end=None):
+def run_machine(code, env, max_ticks=3, max_steps=20000, main_end=None):
     m = ic10_machine.Machine(code, env, max_steps=max_steps, max_ticks=max_ticks)
     m.main_end = main_end
     return m.run()
@@ -153,6 +157,10 @@ def check_line(line, labels, aliases, defines):
     for tok, k in zip(args, allk):
         if PY_SPELLINGS.search(tok):
             return f"operand {tok!r} is a Python spelling / placeholder"
+        if re.fullmatch(r"\$[0-9A-F]+", tok) and int(tok[1:], 16) >= 2**63:
+            return f"hex literal {tok!r} does not fit a 64-bit integer"
+        if re.fullmatch(r"-?\d+", tok) and abs(int(tok)) >= 2**63:
+            return f"integer literal {tok!r} does not fit a 64-bit integer"
         if k == "reg":
             if not (REG.fullmatch(tok) or tok in aliases):
                 return f"output operand {tok!r} is not a register"
